@@ -73,6 +73,7 @@ namespace sim
         lifo_.clear();
         events_.clear();
         pending_.clear();
+        exhausted_ = false;
         lo_cur_      = lo_area_;
         hi_cur_      = hi_area_;
         below_cur_   = 0;
@@ -200,6 +201,11 @@ namespace sim
     {
         if (g_upstream_hook)
             g_upstream_hook("upstream.request");
+        if (exhausted_)
+        {
+            fault_fired_ = true;
+            return nullptr;
+        }
         if (armed_ && !suspended_)
         {
             ++op_calls_;
